@@ -592,6 +592,38 @@ func (b *rb) scan(v Val, t types.Type, depth int) {
 				b.scan(fromTerm(pt, ct), pt, depth+1)
 			}
 		}
+		if ref, _ := b.intv(v.Ref); ref != 0 {
+			b.scanPointee(v, pt, depth+1)
+		}
+	}
+}
+
+// scanPointee: slices held in the fields of a pointed-to struct share
+// backing objects with other inputs; their extents count too.
+func (b *rb) scanPointee(p Val, pt types.Type, depth int) {
+	u, ok := pt.Underlying().(*types.Struct)
+	if !ok || depth > 4 {
+		return
+	}
+	for i := 0; i < u.NumFields(); i++ {
+		ft := u.Field(i).Type()
+		if b.foreignField(pt, u.Field(i)) {
+			continue
+		}
+		fp := b.c.fieldAddr(Val{K: kPtr, T: types.NewPointer(pt), Ref: p.Ref, Idx: p.Idx, Root: p.Root, Path: p.Path}, i, types.NewPointer(ft))
+		switch ft.Underlying().(type) {
+		case *types.Struct:
+			b.scanPointee(fp, ft, depth+1)
+			continue
+		case *types.Array:
+			continue
+		}
+		switch kindOf(ft) {
+		case kSlice, kPtr:
+			if ct := b.cell(fp.Root, fp.Path, sortOf(ft), fp.Ref, fp.Idx); ct != "" {
+				b.scan(fromTerm(ft, ct), ft, depth+1)
+			}
+		}
 	}
 }
 
@@ -675,6 +707,9 @@ func (b *rb) expr(v Val, t types.Type, depth int) string {
 			}
 			switch kindOf(ft) {
 			case kFunc, kIface, kMap, kOpaque:
+				if e := b.c.con.ReplayFields[st.Field(i).Name()]; e != "" {
+					fs = append(fs, fmt.Sprintf("%s: %s", st.Field(i).Name(), e))
+				}
 				continue
 			}
 			fs = append(fs, fmt.Sprintf("%s: %s", st.Field(i).Name(), b.expr(f, ft, depth+1)))
@@ -754,6 +789,9 @@ func (b *rb) pointeeExpr(p Val, pt types.Type, depth int) string {
 			default:
 				switch kindOf(ft) {
 				case kFunc, kIface, kMap, kOpaque:
+					if e := b.c.con.ReplayFields[u.Field(i).Name()]; e != "" {
+						fs = append(fs, fmt.Sprintf("%s: %s", u.Field(i).Name(), e))
+					}
 					continue
 				}
 				ct := b.cell(fp.Root, fp.Path, sortOf(ft), fp.Ref, fp.Idx)
@@ -771,6 +809,37 @@ func (b *rb) pointeeExpr(p Val, pt types.Type, depth int) string {
 		return b.zeroExpr(pt)
 	}
 	return b.expr(fromTerm(pt, ct), pt, depth)
+}
+
+// panicMatches: does the observed panic message fit the obligation kind?
+func panicMatches(kind, out string) bool {
+	i := strings.Index(out, "GOVC-REPLAY panic:")
+	if i < 0 {
+		return false
+	}
+	msg := out[i:]
+	if j := strings.Index(msg, "\n"); j >= 0 {
+		msg = msg[:j]
+	}
+	has := func(ss ...string) bool {
+		for _, s := range ss {
+			if strings.Contains(msg, s) {
+				return true
+			}
+		}
+		return false
+	}
+	switch kind {
+	case "bounds":
+		return has("out of range", "out of bounds")
+	case "nil":
+		return has("nil pointer dereference", "nil map")
+	case "div":
+		return has("divide by zero")
+	case "conv":
+		return has("interface conversion")
+	}
+	return true
 }
 
 // tryReplay builds and runs the test for a failed obligation with a model.
@@ -817,7 +886,7 @@ func tryReplay(eng *Engine, o *Obligation, dir, name string) map[string]interfac
 				small = append(small, and(sx("<=", num(-lim), t), sx("<=", t, num(lim))))
 			}
 		}
-		b.vals, ok = getValues(o.queryFile, append(small, o.pins...), b.terms, dir, name+".1")
+		b.vals, ok = getValues(o.queryFile, append(append(small, c.replayAssume...), o.pins...), b.terms, dir, name+".1")
 		if ok {
 			usedSmall = small
 			break
@@ -858,7 +927,7 @@ func tryReplay(eng *Engine, o *Obligation, dir, name string) map[string]interfac
 			break
 		}
 		usedSmall = append(usedSmall, merge...)
-		nv, ok2 := getValues(o.queryFile, append(append([]string{}, usedSmall...), o.pins...), b.terms, dir, name+".1s")
+		nv, ok2 := getValues(o.queryFile, append(append(append([]string{}, usedSmall...), c.replayAssume...), o.pins...), b.terms, dir, name+".1s")
 		if !ok2 {
 			break
 		}
@@ -952,7 +1021,10 @@ func tryReplay(eng *Engine, o *Obligation, dir, name string) map[string]interfac
 	}
 	switch o.Kind {
 	case "bounds", "nil", "div", "panic", "pre-panic", "conv":
-		rec["confirmed"] = panicked
+		rec["confirmed"] = panicked && panicMatches(o.Kind, out)
+		if panicked && !panicMatches(o.Kind, out) {
+			rec["reason"] = "the real code panicked, but not with the kind of run-time error this obligation excludes (the input may not satisfy the preconditions)"
+		}
 		if !panicked && returned {
 			rec["reason"] = "the real code returned normally on the model's input (the failed obligation is reported without a failing input)"
 		}
